@@ -187,12 +187,14 @@ InvIndex == (Family = "index") =>
         /\ \A t \in EncProbes(IdxD, IdxK), e \in EncDegrees(IdxD) :
               ReqEncodeRejects(t, e, tabs, IdxK) /\ ReqEncodeAccepts(t, e, tabs, IdxK)
 EmitIndex == (Family = "index") =>
-    PrintT(ToJson([kind |-> "table", d |-> IdxD, K |-> IdxK, D |-> IdxMaxD,
+    LET tabs == IdxTabs
+        tab  == tabs[IdxD + 1]
+    IN  PrintT(ToJson([kind |-> "table", d |-> IdxD, K |-> IdxK, D |-> IdxMaxD,
                    psi |-> PsiFCode(IdxD, IdxK),
-                   words |-> TableF(IdxD, IdxK),
-                   tuples |-> [pos \in 1 .. PsiFCode(IdxD, IdxK) |-> DecodeF(TableF(IdxD, IdxK)[pos])],
+                   words |-> tab,
+                   tuples |-> [pos \in 1 .. Len(tab) |-> DecodeF(tab[pos])],
                    probes |-> LET s == SetToSeq(EncProbes(IdxD, IdxK) \X EncDegrees(IdxD))
-                              IN  [i \in 1 .. Len(s) |-> <<s[i][1], s[i][2], EncodeF(s[i][1], s[i][2], IdxTabs)>>]]))
+                              IN  [i \in 1 .. Len(s) |-> <<s[i][1], s[i][2], EncodeF(s[i][1], s[i][2], tabs)>>]]))
 
 (**************************** algebra families *******************************)
 InvGenerated == AnyAlg => \A i \in 1 .. 3 : \A t \in DOMAIN P[i] : InTable(t, FDeg(t), KMax) /\ FDeg(t) <= MaxD
@@ -234,8 +236,8 @@ AlgResults ==
          val  |-> [i \in 1 .. Len(Points) |-> FEvalN(p, Points[i], EvalD)],
          grad |-> [i \in 1 .. Len(Points) |-> ReqGradN(p, Points[i], EvalD)],
          hess |-> [i \in 1 .. Len(Points) |-> ReqHessN(p, Points[i], EvalD)],
-         gradasis |-> [i \in 1 .. Len(Points) |-> CodeGradN(p, Points[i], EvalD)],
-         hessasis |-> [i \in 1 .. Len(Points) |-> CodeHessN(p, Points[i], EvalD)]]
+         gradasis |-> [i \in 1 .. Len(Points) |-> IF NoZeroAction(Points[i]) THEN <<>> ELSE CodeGradN(p, Points[i], EvalD)],
+         hessasis |-> [i \in 1 .. Len(Points) |-> IF NoZeroAction(Points[i]) THEN <<>> ELSE CodeHessN(p, Points[i], EvalD)]]
 EmitAlg == AnyAlg => PrintT(ToJson(AlgResults))
 
 (****************************** nf2aa families *******************************)
